@@ -19,17 +19,20 @@ theorem rd_slice {m r : Bytes} {s : Nat} (hr : r = slice m s r.length) {i : Nat}
 
 /-- **names inside RDATA, every compression layout.** If the RDATA bytes (a slice of the message) at `rdOff` denote the
 labels `ls` and the name ends inside the RDATA, `decodeNameFromRdata` returns exactly them and the offset behind the name.
-(`ls ≠ []`: a bare pointer to a root label standing in the LAST byte of the message is refused by the code's
-`pointer + 1 < messageSize` test — noted, never produced by an encoder.) -/
+The root name is covered when it is written as a root label (`00`: the null MX of RFC 7505, the SRV target `.`); what is
+excluded is only a POINTER to a root label — refused by the code's `pointer + 1 < messageSize` test when that label is the
+last byte of the message, and never produced by an encoder (2 bytes instead of 1). -/
 theorem rdataName_exact (m r : Bytes) (rdStart rdOff nx : Nat) (ls : List Bytes)
     (hr : r = slice m rdStart r.length) (hoff : rdOff < r.length)
-    (hd : Denotes m (rdStart + rdOff) ls (rdStart + nx)) (hnx : nx ≤ r.length) (hw : wire ls ≤ 253) (hne : ls ≠ []) :
+    (hwf : WellFormedName m (rdStart + rdOff) ls (rdStart + nx)) (hnx : nx ≤ r.length)
+    (hne : ls ≠ [] ∨ m[rdStart + rdOff]? = some 0) :
     rdataName m rdStart rdOff r = .ok (dottedName ls, nx) := by
   unfold rdataName
   have h1 : ¬ (r.length = 0 ∨ rdOff ≥ r.length) := by omega
   simp only [h1, ↓reduceIte]
-  have hdec := decodeName_sound m _ ls _ hd hw
-  generalize hA : rdStart + rdOff = A at hd hdec
+  have hdec := decodeName_sound m _ ls _ hwf
+  obtain ⟨hops, hd, hj, hw⟩ := hwf
+  generalize hA : rdStart + rdOff = A at hd hdec hne
   generalize hB : rdStart + nx = B at hd hdec
   have habs : A < m.length := by
     cases hd with
@@ -50,7 +53,7 @@ theorem rdataName_exact (m r : Bytes) (rdStart rdOff nx : Nat) (ls : List Bytes)
     | label hb _ h63 _ _ =>
       have := (List.getElem?_eq_some_iff.mp hb).2
       rw [this] at h192; omega
-    | @ptr _ b b2 _ nx' hb _ hb2 hrest =>
+    | @ptr _ b b2 _ nx' hops' hb _ hb2 hrest =>
       have hnx2 : nx = rdOff + 2 := by omega
       have hlt2 : rdOff + 1 < r.length := by omega
       have eb : m[A] = b := (List.getElem?_eq_some_iff.mp hb).2
@@ -65,13 +68,16 @@ theorem rdataName_exact (m r : Bytes) (rdStart rdOff nx : Nat) (ls : List Bytes)
         rfl
       have htgt : (b.toNat % 64) * 256 + b2.toNat < m.length ∧ (b.toNat % 64) * 256 + b2.toNat + 1 < m.length := by
         cases hrest with
-        | root h0 => exact absurd rfl hne
+        | root h0 =>
+          rcases hne with hne | hne
+          · exact absurd rfl hne
+          · rw [hb] at hne; cases hne; rw [eb] at h192; exact absurd h192 (by decide)
         | label hb' h1' _ hlen' _ => exact ⟨(List.getElem?_eq_some_iff.mp hb').1, by omega⟩
         | ptr hb' _ hb2' _ => exact ⟨(List.getElem?_eq_some_iff.mp hb').1, (List.getElem?_eq_some_iff.mp hb2').1⟩
       rw [eb] at hrd0 hp
       simp only [hlt2, ↓reduceIte, hrd0, bind, Except.bind, hp, show ¬ rdOff + 2 > r.length by omega, h16, pure, Except.pure,
         ptr_value b b2 (by rw [← eb]; exact h192), htgt, and_self]
-      rw [decodeName_sound m _ ls nx' hrest hw, hnx2]
+      rw [decodeName_sound m _ ls nx' ⟨hops', hrest, by omega, hw⟩, hnx2]
   · -- labels first: decode at the absolute offset
     have hp' : isPtr m[A] = false := by simpa using hp
     have hdirect : (if rdOff + 1 < r.length then
@@ -99,7 +105,7 @@ theorem Denotes.lt_next {m : Bytes} {off : Nat} {ls : List Bytes} {nx : Nat} (h 
 
 theorem RecordAt.rdata_slice {m : Bytes} {off : Nat} {rr : RR} {rdOff next : Nat} (h : RecordAt m off rr rdOff next) :
     rr.rdata = slice m rdOff rr.rdata.length := by
-  obtain ⟨ls, pre, post, _, _, _, hm, _, _, _, _, _, hrd, _⟩ := h
+  obtain ⟨ls, pre, post, _, _, hm, _, _, _, _, _, hrd, _⟩ := h
   have e5 : m = (pre ++ be16 rr.type ++ be16 rr.cls ++ be32 rr.ttl ++ be16 rr.rdlength) ++ rr.rdata ++ post := by
     rw [hm]; simp [List.append_assoc]
   have hl : (pre ++ be16 rr.type ++ be16 rr.cls ++ be32 rr.ttl ++ be16 rr.rdlength).length = rdOff := by rw [hrd]; simp
@@ -147,33 +153,37 @@ theorem typed_txt (m : Bytes) (rr : RR) (o : Nat) (ts : List Bytes) (ht : rr.typ
 
 /-- **CNAME**: the RDATA is a name, compressed in any way -/
 theorem typed_cname (m : Bytes) (rr : RR) (o : Nat) (ls : List Bytes) (ht : rr.type = 5)
-    (hr : rr.rdata = slice m o rr.rdata.length) (hd : Denotes m o ls (o + rr.rdata.length)) (hw : wire ls ≤ 253) (hne : ls ≠ []) :
+    (hr : rr.rdata = slice m o rr.rdata.length) (hd : WellFormedName m o ls (o + rr.rdata.length))
+    (hne : ls ≠ [] ∨ m[o]? = some 0) :
     typedSpec m (rr, o) = some (.cname rr.name (dottedName ls) rr.ttl) := by
   apply typedSpec_of
   have hpos : 0 < rr.rdata.length := by
-    have := hd.lt_next; omega
-  have := rdataName_exact m rr.rdata o 0 rr.rdata.length ls hr hpos (by simpa using hd) (Nat.le_refl _) hw hne
+    obtain ⟨_, hh, _, _⟩ := hd
+    have := hh.toDenotes.lt_next; omega
+  have := rdataName_exact m rr.rdata o 0 rr.rdata.length ls hr hpos (by simpa using hd) (Nat.le_refl _) (by simpa using hne)
   unfold typedOf
   simp [ht, Gen.Dns.typedTypes, parseCname, this, Except.map, show rr.rdata.length ≠ 0 by omega, bind, Except.bind, pure, Except.pure]
 
 /-- **PTR**: the RDATA is a name, compressed in any way -/
 theorem typed_ptr (m : Bytes) (rr : RR) (o : Nat) (ls : List Bytes) (ht : rr.type = 12)
-    (hr : rr.rdata = slice m o rr.rdata.length) (hd : Denotes m o ls (o + rr.rdata.length)) (hw : wire ls ≤ 253) (hne : ls ≠ []) :
+    (hr : rr.rdata = slice m o rr.rdata.length) (hd : WellFormedName m o ls (o + rr.rdata.length))
+    (hne : ls ≠ [] ∨ m[o]? = some 0) :
     typedSpec m (rr, o) = some (.ptr rr.name (dottedName ls) rr.ttl) := by
   apply typedSpec_of
   have hpos : 0 < rr.rdata.length := by
-    have := hd.lt_next; omega
-  have := rdataName_exact m rr.rdata o 0 rr.rdata.length ls hr hpos (by simpa using hd) (Nat.le_refl _) hw hne
+    obtain ⟨_, hh, _, _⟩ := hd
+    have := hh.toDenotes.lt_next; omega
+  have := rdataName_exact m rr.rdata o 0 rr.rdata.length ls hr hpos (by simpa using hd) (Nat.le_refl _) (by simpa using hne)
   unfold typedOf
   simp [ht, Gen.Dns.typedTypes, parsePtr, this, Except.map, show rr.rdata.length ≠ 0 by omega, bind, Except.bind, pure, Except.pure]
 
 /-- **MX**: preference, then a name compressed in any way -/
 theorem typed_mx (m : Bytes) (rr : RR) (o : Nat) (ls : List Bytes) (pref : Nat) (ht : rr.type = 15)
     (hr : rr.rdata = slice m o rr.rdata.length) (hp : rd16 rr.rdata 0 = .ok pref) (hlen : 2 < rr.rdata.length)
-    (hd : Denotes m (o + 2) ls (o + rr.rdata.length)) (hw : wire ls ≤ 253) (hne : ls ≠ []) :
+    (hd : WellFormedName m (o + 2) ls (o + rr.rdata.length)) (hne : ls ≠ [] ∨ m[o + 2]? = some 0) :
     typedSpec m (rr, o) = some (.mx rr.name pref (dottedName ls) rr.ttl) := by
   apply typedSpec_of
-  have := rdataName_exact m rr.rdata o 2 rr.rdata.length ls hr hlen hd (Nat.le_refl _) hw hne
+  have := rdataName_exact m rr.rdata o 2 rr.rdata.length ls hr hlen hd (Nat.le_refl _) hne
   unfold typedOf
   simp [ht, Gen.Dns.typedTypes, parseMx, this, Except.map, Gen.Dns.minMx, show ¬ rr.rdata.length < 2 by omega, hp, hlen, bind, Except.bind,
     pure, Except.pure]
@@ -182,10 +192,10 @@ theorem typed_mx (m : Bytes) (rr : RR) (o : Nat) (ls : List Bytes) (pref : Nat) 
 theorem typed_srv (m : Bytes) (rr : RR) (o : Nat) (ls : List Bytes) (prio weight port : Nat) (ht : rr.type = 33)
     (hr : rr.rdata = slice m o rr.rdata.length) (h0 : rd16 rr.rdata 0 = .ok prio) (h2 : rd16 rr.rdata 2 = .ok weight)
     (h4 : rd16 rr.rdata 4 = .ok port) (hlen : 6 < rr.rdata.length)
-    (hd : Denotes m (o + 6) ls (o + rr.rdata.length)) (hw : wire ls ≤ 253) (hne : ls ≠ []) :
+    (hd : WellFormedName m (o + 6) ls (o + rr.rdata.length)) (hne : ls ≠ [] ∨ m[o + 6]? = some 0) :
     typedSpec m (rr, o) = some (.srv rr.name prio weight port (dottedName ls) rr.ttl) := by
   apply typedSpec_of
-  have := rdataName_exact m rr.rdata o 6 rr.rdata.length ls hr hlen hd (Nat.le_refl _) hw hne
+  have := rdataName_exact m rr.rdata o 6 rr.rdata.length ls hr hlen hd (Nat.le_refl _) hne
   unfold typedOf
   simp [ht, Gen.Dns.typedTypes, parseSrv, this, Except.map, Gen.Dns.minSrv, show ¬ rr.rdata.length < 6 by omega, h0, h2, h4, hlen, bind,
     Except.bind, pure, Except.pure]
@@ -263,7 +273,7 @@ theorem parse_exact (id flags : Nat) (rest : Bytes) (qs : List Question) (an ns 
     parseSection_exact hns (fun p hp => hval p (by simp [hp])),
     parseSection_exact har (fun p hp => hval p (by simp [hp])), pure, Except.pure, List.filterMap_append, List.append_assoc]
 
-/-! ### the decoder's name-length limit is one octet short of RFC 1035 (finding FC19b) -/
+/-! ### the RFC 1035 maximum-length name is accepted (FC19b repaired) -/
 
 /-- a legal name of 255 octets on the wire (RFC 1035 §2.3.4 maximum): labels of 63, 63, 63 and 61 `x`, then the root label -/
 def longNameMsg : Bytes :=
@@ -272,19 +282,28 @@ def longNameMsg : Bytes :=
 def longNameLabels : List Bytes := [List.replicate 63 120, List.replicate 63 120, List.replicate 63 120, List.replicate 61 120]
 
 set_option maxRecDepth 100000 in
-theorem longName_denotes : Denotes longNameMsg 0 longNameLabels 255 := by
-  have h192 : Denotes longNameMsg 254 [] 255 := Denotes.root (by decide)
-  have h3 : Denotes longNameMsg 192 [List.replicate 61 120] 255 :=
-    Denotes.label (b := 61) (by decide) (by decide) (by decide) (by decide) h192
-  have h2 : Denotes longNameMsg 128 [List.replicate 63 120, List.replicate 61 120] 255 :=
-    Denotes.label (b := 63) (by decide) (by decide) (by decide) (by decide) h3
-  have h1 : Denotes longNameMsg 64 [List.replicate 63 120, List.replicate 63 120, List.replicate 61 120] 255 :=
-    Denotes.label (b := 63) (by decide) (by decide) (by decide) (by decide) h2
-  exact Denotes.label (b := 63) (by decide) (by decide) (by decide) (by decide) h1
-
-set_option maxRecDepth 100000 in
-theorem longName_rejected : decodeName longNameMsg 0 = .error .nameTooLong := by rfl
+theorem longName_denotes : DenotesH longNameMsg 0 longNameLabels 255 0 := by
+  have h192 : DenotesH longNameMsg 254 [] 255 0 := DenotesH.root (by decide)
+  have h3 : DenotesH longNameMsg 192 [List.replicate 61 120] 255 0 :=
+    DenotesH.label (b := 61) (by decide) (by decide) (by decide) (by decide) h192
+  have h2 : DenotesH longNameMsg 128 [List.replicate 63 120, List.replicate 61 120] 255 0 :=
+    DenotesH.label (b := 63) (by decide) (by decide) (by decide) (by decide) h3
+  have h1 : DenotesH longNameMsg 64 [List.replicate 63 120, List.replicate 63 120, List.replicate 61 120] 255 0 :=
+    DenotesH.label (b := 63) (by decide) (by decide) (by decide) (by decide) h2
+  exact DenotesH.label (b := 63) (by decide) (by decide) (by decide) (by decide) h1
 
 theorem longName_wire : wire longNameLabels = 254 := by decide
+
+theorem longName_wellFormed : WellFormedName longNameMsg 0 longNameLabels 255 :=
+  ⟨0, longName_denotes, Nat.zero_le _, by rw [longName_wire]; omega⟩
+
+/-- typed records are dropped, raw records kept, whenever the typed parser throws (e.g. a pointer loop or an out-of-range
+pointer inside RDATA) -/
+theorem typedSpec_none_of_error {m : Bytes} {rr : RR} {o : Nat} {e : Err} (h : typedOf rr m o = .error e) : typedSpec m (rr, o) = none := by
+  have hs := typedOf_safe rr m o
+  rw [h] at hs
+  unfold typedSpec parseTypedRecord
+  rw [h]
+  cases e <;> first | exact absurd rfl hs.1 | exact absurd rfl hs.2 | rfl
 
 end Iora.Dns
